@@ -2,7 +2,7 @@
    ExtrOcamlBasic only: bool, option, unit, list, prod, sumbool, sumor map to OCaml's own types
    and andb/orb to && / ||.  nat, positive, N, Z, ascii, string stay the inductive types. *)
 From Coq Require Extraction ExtrOcamlBasic.
-From Verif Require Import Base.Text Gen.GenTokens Gen.GenLegend Model.Lexer Model.SemTokens Spec.LspClass Model.Decode Gen.GenDecoders Model.Literals Model.Graph Model.Lsp Extract.LspInst Model.Cli Extract.CliInst Model.Analyzer Model.Scope Model.Rules Model.ExprKind Model.DataDecl Model.DeclRules Model.ExprParser Model.StParser Model.StInstance Model.StRender Model.LibRender Proofs.ExprInstance.
+From Verif Require Import Base.Text Gen.GenTokens Gen.GenLegend Model.Lexer Model.SemTokens Spec.LspClass Model.Decode Gen.GenDecoders Model.Literals Model.Graph Model.Lsp Extract.LspInst Model.Cli Extract.CliInst Model.Analyzer Model.Scope Model.Rules Model.ExprKind Model.DataDecl Model.DeclRules Model.ExprParser Model.StParser Model.StInstance Model.StRender Model.LibRender Proofs.ExprInstance Proofs.StRenderProofs Proofs.LexSpell Proofs.TextRoundTrip.
 Extraction Language OCaml.
 Extraction "model.ml"
   tok_name tok_index all_kinds
@@ -15,4 +15,4 @@ Extraction "model.ml"
   rule_unique rule_subrange reassemble mkDecl
   rule_symbolic
   rule_const_init rule_const_not_fb rule_global_const rule_task rule_enum_value rule_fb_call rule_stdlib xform_type_init resolve_expr_kinds xform_data_decl rule_struct_unique rule_enum_unique rule_subrange_limits
-  parse_expr_text render_expr parse_fb_text parse_fbd_text parse_lib_text parse_lib2_text render_list render_decls render_lib2.
+  parse_expr_text render_expr parse_fb_text parse_fbd_text parse_lib_text parse_lib2_text render_list render_decls render_lib2 render_fb render_text text_ok.
